@@ -91,7 +91,11 @@ def r2_kill(report, repo):
   f = repo.func(TH, 'KillableThread.kill')
   g = lib.cfg(f)
   sets = lib.nodes_with_call(g, name='self._killed.set')
-  report.expect_instances(rule, len(sets), 1, '_killed.set calls')
+  if not sets:
+    report.violation(rule, f.qualname, 'killed-flag-never-set', f.node,
+                     'kill() never sets the killed flag: a kill requested '
+                     'before the thread started does not prevent its body')
+    return
   others = [n for n in g.nodes if n.kind in ('test', 'stmt') and n.ast is not None
             and n is not sets[0][0] and not isinstance(n.ast, ast.Constant) and
             not (isinstance(n.ast, ast.Expr) and isinstance(n.ast.value,
